@@ -194,7 +194,7 @@ var (
 )
 
 func c13GenSeg(rt *rapid.T) string {
-	if rapid.IntRange(0, 7).Draw(rt, "segKind") == 0 {
+	if rapid.IntRange(0, 7).Draw(rt, "segKind") == 7 {
 		return rapid.SampledFrom(c13ExoticSegs).Draw(rt, "xseg")
 	}
 	return rapid.SampledFrom(c13CoreSegs).Draw(rt, "seg")
